@@ -46,20 +46,44 @@ def listcomp(key, f, it):
         return [f(x) for x in it]
     if not isinstance(ety, T.Ty) and callable(ety):
         ety = ety()         # lazily resolved element type
+    if f.__code__.co_freevars:
+        raise OutOfReach(f"comprehension {key}: the element expression reads enclosing locals")
+    from .spec import forall, implies
+    from .sym import mk_bool
     c = _ctx.cur()
     out = c.fresh("comp", z3.SeqSort(ety.sort()))
-    c.assume(z3.Length(out) == it._len())
-    j = c.fresh("cj", z3.IntSort())
+    src, elem_ty = it.term, it._elem            # the iterated sequence as it is now
+    n = _len(src)
+    c.assume(z3.Length(out) == n)
+
+    def body(jv):
+        img = ety.unwrap(f(elem_ty.wrap(_nth(src, jv.t))))
+        return implies((0 <= jv) & mk_bool(jv.t < n), mk_bool(out[jv.t] == img))
     before = len(c.decisions)
-    c.spec_mode += 1
-    try:
-        img = ety.unwrap(f(it._elem.wrap(it.term[j])))
-    finally:
-        c.spec_mode -= 1
+    fact = forall(T.Int, body, "cj")            # evaluates body once on a generic index
     if len(c.decisions) != before:
         raise OutOfReach(f"comprehension {key}: the element expression forks on a generic element")
-    c.assume(z3.ForAll([j], z3.Implies(z3.And(j >= 0, j < it._len()), out[j] == img)))
+    c.assume_value(fact)                        # hand-instantiated like every other quantified assumption
     return SymList(Box(out), ety)
+
+
+def _nth(t, i):
+    """t[i] for 0 <= i < Length(t); an index into a slice is resolved to an index into the sliced
+    sequence (for in-range i, extract(a, off, n)[i] is a[off + i])"""
+    t = z3.simplify(t)
+    if z3.is_app(t) and t.decl().kind() == z3.Z3_OP_SEQ_EXTRACT:
+        return _nth(t.arg(0), t.arg(1) + i)
+    return t[i]
+
+
+def _len(t):
+    """Length(t) with the length of a slice written out (so no extract term reaches the solver)"""
+    t = z3.simplify(t)
+    if z3.is_app(t) and t.decl().kind() == z3.Z3_OP_SEQ_EXTRACT:
+        a, off, n = t.arg(0), t.arg(1), t.arg(2)
+        la = _len(a)
+        return z3.If(z3.And(off >= 0, off <= la, n >= 0), z3.If(n < la - off, n, la - off), z3.IntVal(0))
+    return z3.Length(t)
 
 
 def declare_comp(relpath, qualname, ordinal, elem):
